@@ -41,6 +41,28 @@ def coreTypeBySize (n : Nat) : Outcome String :=
   | some p => .ok p.2
   | none => .panic
 
+/-! ### coset tables as public views
+
+A `CosetTable` value is read by this module only through `get`, `len` and `nr_gens` — its public
+view.  As in the models and theorems of C11–C13 (whose statements are about `Table.ofView n tab`)
+and in their correspondence harnesses (which transmit tables as views), a table is carried here
+as its view `tab : Tab` (one row per coset, the images under `all_gens()` in that order) and
+handed to a table model as `tbl n tab = Table.ofView n tab`, the `CosetTable` value with that
+view and no pending coincidences (the shape `compact()` returns).  `tabOf` takes the view of a
+table a model returned. -/
+
+abbrev Tab := Array (Array Int)
+
+/-- the `CosetTable` value with public view `tab` -/
+def tbl (n : Nat) (tab : Tab) : Table := Table.ofView n tab
+
+/-- the public view of a table -/
+def tabOf (t : Table) : Outcome Tab :=
+  match t.view with
+  | .ok v => .ok (v.map List.toArray).toArray
+  | .err => .err
+  | .panic => .panic
+
 /-! ### tables as permutation actions -/
 
 /-- the double loop of `is_fully_involutive` over (row, letter) in loop order -/
@@ -57,18 +79,18 @@ def rowLetterPairs (len : Nat) (gens : List Int) : List (Nat × Int) :=
   (List.range len).flatMap fun row => gens.map fun g => (row, g)
 
 /-- `is_fully_involutive(ct)` -/
-def isFullyInvolutive (ct : Table) : Outcome Bool :=
-  involutiveLoop ct.get (rowLetterPairs ct.len ct.allGens)
+def isFullyInvolutive (n : Nat) (ct : Tab) : Outcome Bool :=
+  involutiveLoop (tbl n ct).get (rowLetterPairs ct.size (allGensOf n))
 
 /-- `core_type(ct)` -/
-def coreType (ct : Table) : Outcome String :=
-  if ct.len = Tables.coreTypeSpecialSize then
-    match isFullyInvolutive ct with
+def coreType (n : Nat) (ct : Tab) : Outcome String :=
+  if ct.size = Tables.coreTypeSpecialSize then
+    match isFullyInvolutive n ct with
     | .ok true => .ok Tables.coreTypeSpecialNames.1
     | .ok false => .ok Tables.coreTypeSpecialNames.2
     | .err => .err
     | .panic => .panic
-  else coreTypeBySize ct.len
+  else coreTypeBySize ct.size
 
 /-- `w.iter().fold(row, |a, g| ct.get(a, *g).unwrap())` -/
 def traceRow (get : Nat → Int → Outcome (Option Nat)) (row : Nat) (w : List Int) : Outcome Nat :=
@@ -99,29 +121,29 @@ def degreeOf (get : Nat → Int → Outcome (Option Nat)) (len : Nat) (w : List 
   degreeLoop (fun row => traceRow get row w) len 0 0
 
 /-- `degree(ct, w)` -/
-def degree (ct : Table) (w : List Int) : Outcome Nat := degreeOf ct.get ct.len w
+def degree (n : Nat) (ct : Tab) (w : List Int) : Outcome Nat := degreeOf (tbl n ct).get ct.size w
 
 /-- `cones.iter().all(|(wd, deg)| degree(ct, wd) == *deg)` (short-circuit) -/
-def flattensAll (ct : Table) : List (List Int × Nat) → Outcome Bool
+def flattensAll (n : Nat) (ct : Tab) : List (List Int × Nat) → Outcome Bool
   | [] => .ok true
   | (wd, deg) :: rest =>
-    match degree ct wd with
-    | .ok k => if k = deg then flattensAll ct rest else .ok false
+    match degree n ct wd with
+    | .ok k => if k = deg then flattensAll n ct rest else .ok false
     | .err => .err
     | .panic => .panic
 
 /-! ### construct_candidates -/
 
-abbrev Candidates := List (String × List Table)
+abbrev Candidates := List (String × List Tab)
 
 /-- `result.get_mut(name).unwrap().push(t)` -/
-def candPush (c : Candidates) (name : String) (t : Table) : Outcome Candidates :=
+def candPush (c : Candidates) (name : String) (t : Tab) : Outcome Candidates :=
   if c.any (fun e => e.1 == name) then
     .ok (c.map fun e => if e.1 == name then (e.1, e.2 ++ [t]) else e)
   else .panic
 
 /-- `candidates[&name]` -/
-def candGet (c : Candidates) (name : String) : Outcome (List Table) :=
+def candGet (c : Candidates) (name : String) : Outcome (List Tab) :=
   match c.find? (fun e => e.1 == name) with
   | some e => .ok e.2
   | none => .panic
@@ -129,14 +151,32 @@ def candGet (c : Candidates) (name : String) : Outcome (List Table) :=
 /-- search-node budget for the model of `coset_tables` (the Rust iterator has none) -/
 def nodeFuel : Nat := 50000000
 
+/-- `core_table(&ct)` on views -/
+def coreTab (n : Nat) (ct : Tab) : Outcome Tab :=
+  match Stab.coreTable (tbl n ct) with
+  | .ok c => tabOf c
+  | .err => .err
+  | .panic => .panic
+
+/-- `intersection_table(ta, tb)` on views -/
+def interTab (n : Nat) (ta tb : Tab) : Outcome Tab :=
+  match Stab.intersectionTable (tbl n ta) (tbl n tb) with
+  | .ok c => tabOf c
+  | .err => .err
+  | .panic => .panic
+
 /-- `coset_tables(nr_gens, rels, max).map(|ct| core_table(&ct)).collect()` -/
-def coreTables : List (Outcome Table) → Outcome (List Table)
+def coreTables (n : Nat) : List (Outcome Table) → Outcome (List Tab)
   | [] => .ok []
   | .ok t :: rest =>
-    match Stab.coreTable t with
-    | .ok c =>
-      (match coreTables rest with
-       | .ok cs => .ok (c :: cs)
+    match tabOf t with
+    | .ok ct =>
+      (match coreTab n ct with
+       | .ok c =>
+         (match coreTables n rest with
+          | .ok cs => .ok (c :: cs)
+          | .err => .err
+          | .panic => .panic)
        | .err => .err
        | .panic => .panic)
     | .err => .err
@@ -145,37 +185,38 @@ def coreTables : List (Outcome Table) → Outcome (List Table)
   | .panic :: _ => .panic
 
 /-- first loop: `if flattens_all(table, &cones) { result[core_type(table)].push(table) }` -/
-def firstLoop (cones : List (List Int × Nat)) : List Table → Candidates → Outcome Candidates
+def firstLoop (n : Nat) (cones : List (List Int × Nat)) : List Tab → Candidates → Outcome Candidates
   | [], c => .ok c
   | t :: rest, c =>
-    match flattensAll t cones with
+    match flattensAll n t cones with
     | .ok true =>
-      (match coreType t with
+      (match coreType n t with
        | .ok name =>
          (match candPush c name t with
-          | .ok c' => firstLoop cones rest c'
+          | .ok c' => firstLoop n cones rest c'
           | .err => .err
           | .panic => .panic)
        | .err => .err
        | .panic => .panic)
-    | .ok false => firstLoop cones rest c
+    | .ok false => firstLoop n cones rest c
     | .err => .err
     | .panic => .panic
 
 /-- body of the inner loop for one pair (ta, tb) -/
-def pairStep (cones cones2 : List (List Int × Nat)) (ta tb : Table) (c : Candidates) : Outcome Candidates :=
-  match Stab.intersectionTable ta tb with
+def pairStep (n : Nat) (cones cones2 : List (List Int × Nat)) (ta tb : Tab) (c : Candidates) :
+    Outcome Candidates :=
+  match interTab n ta tb with
   | .ok tx =>
-    (match flattensAll tx cones with
+    (match flattensAll n tx cones with
      | .ok true =>
-       if ta.len = 3 ∧ tx.len = 6 then
-         (match flattensAll tb cones2 with
+       if ta.size = 3 ∧ tx.size = 6 then
+         (match flattensAll n tb cones2 with
           | .ok true => candPush c "z6" tx
           | .ok false => .ok c
           | .err => .err
           | .panic => .panic)
-       else if ta.len = 6 ∧ tx.len = 12 then
-         (match flattensAll tb cones2 with
+       else if ta.size = 6 ∧ tx.size = 12 then
+         (match flattensAll n tb cones2 with
           | .ok true => .ok c
           | .ok false => candPush c "d6" tx
           | .err => .err
@@ -187,28 +228,29 @@ def pairStep (cones cones2 : List (List Int × Nat)) (ta tb : Table) (c : Candid
   | .err => .err
   | .panic => .panic
 
-def innerLoop (cones cones2 : List (List Int × Nat)) (ta : Table) : List Table → Candidates → Outcome Candidates
+def innerLoop (n : Nat) (cones cones2 : List (List Int × Nat)) (ta : Tab) :
+    List Tab → Candidates → Outcome Candidates
   | [], c => .ok c
   | tb :: rest, c =>
-    if tb.len = 2 then
-      match pairStep cones cones2 ta tb c with
-      | .ok c' => innerLoop cones cones2 ta rest c'
+    if tb.size = 2 then
+      match pairStep n cones cones2 ta tb c with
+      | .ok c' => innerLoop n cones cones2 ta rest c'
       | .err => .err
       | .panic => .panic
-    else innerLoop cones cones2 ta rest c
+    else innerLoop n cones cones2 ta rest c
 
 /-- second loop: `for ta in core_tables.filter(flattens_all(_, cones3)) { for tb in … } }` -/
-def secondLoop (cones cones2 cones3 : List (List Int × Nat)) (all : List Table) :
-    List Table → Candidates → Outcome Candidates
+def secondLoop (n : Nat) (cones cones2 cones3 : List (List Int × Nat)) (all : List Tab) :
+    List Tab → Candidates → Outcome Candidates
   | [], c => .ok c
   | ta :: rest, c =>
-    match flattensAll ta cones3 with
+    match flattensAll n ta cones3 with
     | .ok true =>
-      (match innerLoop cones cones2 ta all c with
-       | .ok c' => secondLoop cones cones2 cones3 all rest c'
+      (match innerLoop n cones cones2 ta all c with
+       | .ok c' => secondLoop n cones cones2 cones3 all rest c'
        | .err => .err
        | .panic => .panic)
-    | .ok false => secondLoop cones cones2 cones3 all rest c
+    | .ok false => secondLoop n cones cones2 cones3 all rest c
     | .err => .err
     | .panic => .panic
 
@@ -216,13 +258,13 @@ def secondLoop (cones cones2 cones3 : List (List Int × Nat)) (all : List Table)
 def constructCandidates (fg : FG.FundGroup) : Outcome Candidates :=
   let nrGens := fg.genToEdge.length
   let cones := fg.cones
-  match coreTables (cosetTables nrGens fg.relators Tables.candidateIndexBound nodeFuel) with
+  match coreTables nrGens (cosetTables nrGens fg.relators Tables.candidateIndexBound nodeFuel) with
   | .ok cts =>
     let cones2 := cones.filter (fun c => c.2 == 2)
     let cones3 := cones.filter (fun c => c.2 == 3)
     let init : Candidates := pointGroups.map fun p => (p, [])
-    (match firstLoop cones cts init with
-     | .ok c1 => secondLoop cones cones2 cones3 cts cts c1
+    (match firstLoop nrGens cones cts init with
+     | .ok c1 => secondLoop nrGens cones cones2 cones3 cts cts c1
      | .err => .err
      | .panic => .panic)
   | .err => .err
@@ -261,29 +303,29 @@ def crystCheck (s : DSymData) : List Nat → Outcome Unit
     | .panic => .panic
 
 /-- `stabilizer(0, rels, table)` followed by `abelian_invariants(sgens.len(), &srels)` -/
-def stabilizerInvariants (rels : List (List Int)) (t : Table) : Outcome (List Nat) :=
-  match Stab.stabilizer 0 rels t with
+def stabilizerInvariants (n : Nat) (rels : List (List Int)) (t : Tab) : Outcome (List Nat) :=
+  match Stab.stabilizer 0 rels (tbl n t) with
   | .ok (sgens, srels) => Inv.abelianInvariants sgens.length srels
   | .err => .err
   | .panic => .panic
 
 /-- `for table in candidates[&tp].iter() { … if inv == [0,0,0] { return Some(..) } }` -/
-def firstTorusTable (rels : List (List Int)) : List Table → Outcome (Option Table)
+def firstTorusTable (n : Nat) (rels : List (List Int)) : List Tab → Outcome (Option Tab)
   | [] => .ok none
   | t :: rest =>
-    match stabilizerInvariants rels t with
-    | .ok inv => if inv = [0, 0, 0] then .ok (some t) else firstTorusTable rels rest
+    match stabilizerInvariants n rels t with
+    | .ok inv => if inv = [0, 0, 0] then .ok (some t) else firstTorusTable n rels rest
     | .err => .err
     | .panic => .panic
 
-def groupLoop (rels : List (List Int)) (cands : Candidates) : List String → Outcome (Option Table)
+def groupLoop (n : Nat) (rels : List (List Int)) (cands : Candidates) : List String → Outcome (Option Tab)
   | [] => .ok none
   | tp :: rest =>
     match candGet cands tp with
     | .ok ts =>
-      (match firstTorusTable rels ts with
+      (match firstTorusTable n rels ts with
        | .ok (some t) => .ok (some t)
-       | .ok none => groupLoop rels cands rest
+       | .ok none => groupLoop n rels cands rest
        | .err => .err
        | .panic => .panic)
     | .err => .err
@@ -302,9 +344,9 @@ def pseudoToroidalCover (s : DSymData) : Outcome (Option DSymData) :=
           | .ok fg =>
             (match constructCandidates fg with
              | .ok cands =>
-               (match groupLoop fg.relators cands pointGroups with
+               (match groupLoop fg.genToEdge.length fg.relators cands pointGroups with
                 | .ok (some t) =>
-                  (match Covers.coverForTable oc (tableData t) fg.edgeToWord with
+                  (match Covers.coverForTable oc (tableData (tbl fg.genToEdge.length t)) fg.edgeToWord with
                    | .ok c => .ok (some c)
                    | .err => .err
                    | .panic => .panic)
